@@ -73,6 +73,10 @@ CHECKS = {
          "TLC enumerates the 192 combinations of normalization, response / variables derive lists, module visibility, custom-scalars module, extern enums and serde path; a covering sample of programs (with non-UpperCamelCase type and operation names, and variables of enum / custom scalar / input types) is generated and compiled under the default, every single change and seeded combinations. For every conforming and corrupted payload of the execution oracle and five variable assignments (two invalid) the observation through JSON must be identical to the default's; so must be whether code is generated and compiles.",
          "Trusted: TLC, projection, rustc + serde; externally defined enums are supplied by the consumer with the reference open-world behaviour.",
          "DESIGN.md §5 C09", "model_checking"),
+ "C19": ("TLA+ protocol model of `graphql-client generate` (CliGenerate.tla: flags -> generate -> format -> write -> exit, LibraryOptions, Destination) model-checked by TLC for every request; a pairwise-covering sample of requests executed with the real binary in scratch trees (before/after snapshots), output compared with the library called with the denoted options, and the recorded runs validated against the specification by TLC (Trace_C19)",
+         "TLC explores all 110 592 requests (8 flags x 3 query file names incl. several dots and nested directories x placement x formatting x {valid, invalid query, missing query, broken schema}) and checks: success writes exactly one file at <dir>/<stem>.rs, failure writes nothing, exit status reflects the outcome. 70 (1500) real runs of the binary built from the working tree: exit status, exactly the expected file created and nothing else touched, content byte-identical to header + library tokens for LibraryOptions(flags) (through the same rustfmt when formatting is on), including re-generation over a longer previous output.",
+         "Trusted: TLC, rustfmt as installed, the flag -> argv mapping in tools/c19.py. Output directories that do not exist are outside the statement.",
+         "DESIGN.md §5 C19", "model_checking"),
 }
 
 
